@@ -4,7 +4,7 @@ From V.lib Require Import Base.
 From V.c13 Require Import C13Spec C13Model.
 From V.c17 Require Import C17Spec C17Model C17RbspProofs C17WriterProofs C17EbspProofs.
 From V.c17 Require Import C17TypedModel C17BitProofs C17TypedProofs C17FswProofs C17ComposeProofs.
-From V.c17 Require Import C17HistModel C17HistProofs C17CanonProofs.
+From V.c17 Require Import C17HistModel C17HistProofs C17CanonProofs C17TieModel C17TieProofs.
 
 (* the 0xFF-run code of payload type (Go uint accumulator) and payload size (uint32
    accumulator) decodes to the value and leaves the rest of the input untouched: every value
@@ -268,3 +268,30 @@ Proof.
   intros t H. destruct t as [cs|m|m|m]; try exact H.
   cbn [typed_canonical] in *. unfold cll_canonical in *. cbn [cl_max cl_avg]. rewrite andb_comm. exact H.
 Qed.
+
+(* ---------------------------------------------------------------- bits.Reader: bit list vs the Go machine *)
+(* The typed decoders above read a bit list and stop at the first failed read.  tc_decode_go /
+   pt_decode_go (C17TieModel) are the same Go functions transcribed over the C13 model of the
+   bits.Reader MACHINE (value/n/pos accumulator over the byte slice, 64-bit shifts, accumulated
+   error: after a failed read every Read returns 0, the decoder runs on to its end, AccError() is
+   looked at last; the Go conversions byte()/uint16()/uint32() written out).  On every byte string
+   (and all 5-bit external length parameters) both compute the same result: value, or error. *)
+Theorem C17_decoders_tie :
+  (forall payload, bytes_ok payload = true -> tc_decode_go payload = tc_decode payload) /\
+  (forall ext tolen payload, ext_ok ext tolen = true -> bytes_ok payload = true ->
+     pt_decode_go ext tolen payload = pt_decode ext tolen payload).
+Proof. exact decoders_tie. Qed.
+Print Assumptions C17_decoders_tie.
+
+(* hence the typed round trips hold for the machine-level decoders *)
+Theorem C17_roundtrip_machine :
+  (forall cs, tc_canonical cs = true -> tc_decode_go (tc_payload cs) = Ok cs) /\
+  (forall m, pt_canonical m = true -> pt_decode_go (p_hrd m) (p_tolen m) (pt_payload m) = Ok m).
+Proof. exact roundtrip_machine. Qed.
+Print Assumptions C17_roundtrip_machine.
+
+Example C17_decoders_tie_hyp :
+  ext_ok (Some (mkHrd 0 0 23 15 20)) 5 = true /\ bytes_ok [8; 128; 5; 0] = true /\
+  tc_decode_go [96; 0; 0; 161] = tc_decode [96; 0; 0; 161] /\
+  pt_decode_go None 0 [8; 128] = Err /\ pt_decode None 0 [8; 128] = Err.
+Proof. repeat split; vm_compute; reflexivity. Qed.
